@@ -607,3 +607,14 @@ Proof.
     { intros Hin. apply Hnp. right. exact Hin. }
     rewrite Hr2. exists r2. split; [destruct x; try reflexivity; contradiction|exact HR2].
 Qed.
+
+(* ---------------------------------------------------------------- the stronger database condition *)
+(* no storage for accounts that are absent, empty, or have neither code nor nonce (an account whose
+   storage revm / grevm declare "known" on its first change without wiping anything) *)
+Definition bare (d : db) (a : addr) : bool :=
+  match db_basic d a with None => true | Some i => info_is_empty i || has_no_code_and_nonce i end.
+
+Definition db_wf (d : db) : Prop := forall a, bare d a = true -> forall k, db_storage d a k = 0.
+
+Lemma db_wf_wf0 d : db_wf d -> db_wf0 d.
+Proof. intros H a Ha k. apply H. unfold bare. now rewrite Ha. Qed.
